@@ -876,7 +876,7 @@ func init() {
 	fw.Register(&fw.Property{
 		ID:    "C12",
 		Level: "fault_enumeration",
-		Rule: "single failure positions are enumerated completely per stream / build: Pack with a writer failing the write that crosses offset k for every k in [0,len) (error required); Unpack with a reader returning an error, and a clean EOF, at every offset 0..len (success only if the destination equals the tree of the whole archive); 16 policy refusals must be *IllegalSlugError; " +
+		Rule: "single failure positions are enumerated completely per stream / build: Pack with a writer failing the write that crosses offset k for every k in [0,len) (error required); Unpack with a reader returning an error, and a clean EOF, at every offset 0..len (success only if the destination equals the tree of the whole archive); 16 Unpack policy refusals and 7 Pack policy refusals (out-of-tree links at several depths, a link led outside by another link, directory cycles met directly and one / two dereferenced directories down) must be *IllegalSlugError; " +
 			"for generated worlds every fetcher / registry / finder call position i is faulted (fetch: error before and after partial content; registry: error; finder: error diagnostic and warning diagnostic; all pairs i<j for builds of <=12 calls in the thorough tier): the Add call that ran it must return an error diagnostic, every public Builder method must refuse afterwards, no *Bundle may exist, the target directory must not open; warnings must reach caller and tracer unchanged with file names rewritten to source addresses and must not poison; " +
 			"at every callback entry and exit of a fault-free build a copy of the target directory must not open as a bundle, after Close it must; a finder-reported local source that leaves its package (placed before, between or after other declarations) must be reported and must poison the builder like any other failure; as an unprivileged user the target directory is made read-only at every callback position. non-trivial = the faulted position was reached; distinct = stream / world",
 		Assumptions: []string{"a truncation inside trailing padding or the gzip trailer may legitimately succeed: the oracle for Unpack is 'success implies the whole archive was materialised'", "close-time errors of destination files cannot be provoked from the public boundary", "the optional strace syscall-fault injection of the design was not built (no stated quantifier depends on it)"},
